@@ -21,6 +21,17 @@ TABLE = {
                         "a hand-written native SQL join over the enumerated scope (incl. the full-join emulation, pandas merge, polars join, which are not under contract)"),
         "assumptions": ["copy.copy is a shallow copy; DBModel.natural_join_to_near_sql is a function of the node it receives"],
     },
+    "C26": {
+        "mods": ["contracts.c06_builders"],
+        "keys": ["ViewRepresentation.is_trivial_when_intermediate_", "OrderRowsNode.is_trivial_when_intermediate_"] + ["ViewRepresentation." + b for b in
+                 ("natural_join", "concat_rows", "select_rows_parsed_", "drop_columns", "map_columns", "rename_columns", "order_rows", "convert_records", "select_columns", "project_parsed_")],
+        "explanation": ("hybrid: PROVED (pyvc) -- the part of the property that concerns simplifiable prefixes: every builder hands ALL its arguments (join-key check flag included) "
+                        "to the same builder of the source when an order_rows without limit is eliminated, and otherwise to the node constructor, and select_columns accepts only "
+                        "columns of the step it is applied to also when it collapses onto an earlier select/drop; so the constructor's verdict is the verdict on the unsimplified "
+                        "sequence. The constructors' rule checks themselves (ExtendNode/ProjectNode/NaturalJoinNode/... __init__, parse_assignments_in_context) are NOT under contract: "
+                        "BOUNDED -- every enumerated prefix x one violating and one conforming step per rule, rejected at build time <=> the rule predicate on the materialised description"),
+        "assumptions": ["node constructors abstracted as new_C(all arguments) or a rejection at builder call sites"],
+    },
     "C25": {
         "mods": ["contracts.c25_cache"], "keys": ["ResultCache.get", "ResultCache.store"],
         "explanation": ("hybrid: PROVED (pyvc) -- ResultCache.get hits only for a stored key, returns a NEW object whose content equals the stored result and leaves the cache and "
